@@ -593,7 +593,7 @@ pub fn eval(expr: Node) -> Result<Number, Box<dyn error::Error>> {
                     Number::Integer(x) => (*x) as f64,
                     Number::Float(x) => *x,
                 };
-                a.partial_cmp(&b).unwrap()
+                a.total_cmp(&b)
             });
             let len = results.len();
             if len % 2 == 0 {
